@@ -10,29 +10,43 @@
 (***************************************************************************)
 EXTENDS Integers, Sequences, FiniteSets, TLC
 
-CONSTANTS SpanSize,
-          ResetOnPut  \* TRUE = the code (fields cleared before Put); FALSE = a seeded design error
+CONSTANTS
+  \* @type: Int;
+  SpanSize,
+  \* @type: Bool;
+  ResetOnPut  \* TRUE = the code (fields cleared before Put); FALSE = a seeded design error
 
-VARIABLES holder,     \* object -> goroutine | "pool"   (objects not in the domain are fresh)
-          ref,        \* object -> goroutine | "none" : whose reader/source/slice the object references
-          mine,       \* goroutine -> set of objects it holds
-          lock,       \* span lock holder or "none"
-          read,       \* span bump pointer
-          regions,    \* set of [g, lo, hi] handed out from the span
-          spc,        \* G -> span call program counter: "none" | "locked" | "bumped"
-          pend,       \* G -> size of the span request in flight
-          map         \* the loaded map (never changes)
+VARIABLES
+  \* @type: Str -> Str;
+  holder,     \* object -> goroutine | "pool"   (objects not in the domain are fresh)
+  \* @type: Str -> Str;
+  ref,        \* object -> goroutine | "none" : whose reader/source/slice the object references
+  \* @type: Str -> Set(Str);
+  mine,       \* goroutine -> set of objects it holds
+  \* @type: Str;
+  lock,       \* span lock holder or "none"
+  \* @type: Int;
+  read,       \* span bump pointer
+  \* @type: Set({g: Str, lo: Int, hi: Int});
+  regions,    \* set of [g, lo, hi] handed out from the span
+  \* @type: Str -> Str;
+  spc,        \* G -> span call program counter: "none" | "locked" | "bumped"
+  \* @type: Str -> Int;
+  pend,       \* G -> size of the span request in flight
+  \* @type: Str;
+  map         \* the loaded map (never changes)
 
 cvars == <<holder, ref, mine, lock, read, regions, spc, pend, map>>
 
+\* @type: (a -> b, a, b) => (a -> b);
 Ext(f, k, v) == [x \in DOMAIN f \cup {k} |-> IF x = k THEN v ELSE f[x]]
 Holder(o) == IF o \in DOMAIN holder THEN holder[o] ELSE "fresh"
 Mine(g) == IF g \in DOMAIN mine THEN mine[g] ELSE {}
 Spc(g) == IF g \in DOMAIN spc THEN spc[g] ELSE "none"
 
 CInit ==
-  /\ holder = <<>> /\ ref = <<>> /\ mine = <<>>
-  /\ lock = "none" /\ read = 0 /\ regions = {} /\ spc = <<>> /\ pend = <<>>
+  /\ holder = [x \in {} |-> "none"] /\ ref = [x \in {} |-> "none"] /\ mine = [x \in {} |-> {}]
+  /\ lock = "none" /\ read = 0 /\ regions = {} /\ spc = [x \in {} |-> "none"] /\ pend = [x \in {} |-> 0]
   /\ map = "loaded"
 
 \* NewX(...): sync.Pool.Get returns any pooled object or a fresh one; the caller installs its own reader
